@@ -11,6 +11,7 @@ import random
 
 import numpy as np
 
+import math
 from bnpmon.models.formats import FORMATS, make_file, float_close
 from bnpmon import tables
 
@@ -116,7 +117,7 @@ def compare_bytes(fmt, got, exp_records, header):
                 continue
             if k == "f":
                 try:
-                    if float(x) == float(y):
+                    if float(x) == float(y) and math.copysign(1.0, float(x)) == math.copysign(1.0, float(y)):       # the two zeros are different doubles
                         continue
                 except ValueError:
                     pass
@@ -162,6 +163,17 @@ def run(ctx):
                 L = r.choice([1, 79, 80, 81, 159, 160, 161, 240])
                 v["sequence"] = "".join(r.choice("ACGT") for _ in range(L))
                 rec["texts"][1] = v["sequence"]
+        # a float column holding values that are equal as numbers but different as doubles and as text (both zeros), or the same value many times
+        kinds_ = WRITE_SPECS[fmt_name][2] or ""
+        if "f" in kinds_ and len(recs) >= 2 and r.random() < 0.3:
+            fcols = [i for i, k in enumerate(kinds_) if k == "f"]
+            fld = list(FORMATS[fmt_name].fields)
+            for i in r.sample(range(len(recs)), r.randint(2, len(recs))):
+                c = r.choice(fcols)
+                z = r.choice([0.0, -0.0, -0.0, recs[0]["values"][fld[c]]])
+                recs[i]["values"][fld[c]] = z
+                recs[i]["texts"][c] = repr(float(z))
+            ctx.count("float_column_with_both_zeros_or_repeats")
         return recs
 
     def write(path, pieces, buffer, mode="w", as_stream=False, dataclass=None):
